@@ -94,6 +94,12 @@ type BatchObs struct {
 	// State.InitializeState read it back from the state file (collisions.go)
 	PreRestart  *Final `json:"memory_before_restart,omitempty"`
 	PostRestart *Final `json:"memory_after_restart,omitempty"`
+	// which tree grouped the records of this flush (settle.go)
+	Size       int      `json:"size"`                 // records in the batch, internal ones included
+	Accepted   int      `json:"accepted"`             // non-internal records
+	StateEmpty bool     `json:"state_empty_before"`   // no endpoint and no consumer aggregate when the flush began
+	PreInserts int      `json:"pre_inserts"`          // convergence-reporting inserts seen before any other tree call
+	Unsettled  []string `json:"unsettled,omitempty"`  // grouping look-ups whose answer the tree no longer gives when Run has returned
 }
 
 type StatusCount struct {
@@ -262,6 +268,7 @@ func executeUnguarded(p *Plan) ([]BatchObs, Final) {
 		err := discovery.Run(st, logs, rt)
 		bo.Rejected = err != nil
 		deriveOracle(&bo, rt.events, len(batch) == 0, n, nE, nC)
+		observeSettle(&bo, rt, len(batch), n, nE, nC)
 		obs = append(obs, bo)
 	}
 	return obs, canonical(st.VerifAggregation())
